@@ -101,6 +101,7 @@ type HookCall struct {
 	RdAtReturn, WrAtReturn int64 // armed deadlines (ns since start; -1 = none)
 	ClosedAtReturn         bool
 	ClosedLater            bool // ten simulated seconds after a failed Dial returned
+	HookNanos              int64 // simulated time spent inside the hook itself (connecting; TLS done by a NetDialTLSContext hook)
 }
 
 type ProxyLog struct {
@@ -390,8 +391,9 @@ func (h *hsRunner) dial(i int, t *Task) {
 func (h *hsRunner) configureDialer(dialer *websocket.Dialer, d *HSDial) {
 	raw := func(hook, network, addr string) (net.Conn, error) {
 		res := h.res[h.curDial]
+		t0 := int64(h.sim.Now())
 		c, err := h.net.Dial(h.curTask, addr)
-		hc := HookCall{Hook: hook, Network: network, Addr: addr}
+		hc := HookCall{Hook: hook, Network: network, Addr: addr, HookNanos: int64(h.sim.Now()) - t0}
 		if sc, ok := c.(*SimConn); ok {
 			hc.Conn = sc
 		}
@@ -416,7 +418,12 @@ func (h *hsRunner) configureDialer(dialer *websocket.Dialer, d *HSDial) {
 			cfg := h.clientTLSConfig(&h.scn.HS.Dials[h.curDial])
 			cfg.ServerName = hostOnly(addr)
 			tc := tls.Client(c, cfg)
-			if err := tc.HandshakeContext(ctx); err != nil {
+			t0 := int64(h.sim.Now())
+			err = tc.HandshakeContext(ctx)
+			if res := h.res[h.curDial]; len(res.Hooks) > 0 {
+				res.Hooks[len(res.Hooks)-1].HookNanos += int64(h.sim.Now()) - t0
+			}
+			if err != nil {
 				c.Close()
 				return nil, err
 			}
@@ -497,10 +504,21 @@ func (h *hsRunner) dialWith(dialer *websocket.Dialer, i int, t *Task) {
 	} else {
 		// crypto/tls closes a connection whose handshake context expired from a
 		// goroutine of its own (context.AfterFunc); give such closers time to finish
-		t.Sleep(10 * time.Second)
-		for k := range res.Hooks {
-			if c := res.Hooks[k].Conn; c != nil {
-				res.Hooks[k].ClosedLater = c.IsClosed()
+		// (several rounds: when the clock also advances while operations are runnable, one round may
+		// be all "starvation" of the goroutine that is about to close)
+		for round := 0; round < 6; round++ {
+			t.Sleep(10 * time.Second)
+			open := false
+			for k := range res.Hooks {
+				if c := res.Hooks[k].Conn; c != nil {
+					res.Hooks[k].ClosedLater = c.IsClosed()
+					if !res.Hooks[k].ClosedAtReturn && !res.Hooks[k].ClosedLater {
+						open = true
+					}
+				}
+			}
+			if !open {
+				break
 			}
 		}
 	}
